@@ -121,6 +121,18 @@ Lemma tie_pool_discipline :
 Proof. tvm. Qed.
 Print Assumptions tie_pool_discipline.
 
+(* C11: the merge owns one scratch object from before its first visit until it returns (so the
+   value bytes its visitor keeps stay its own until they are copied), and visits through the
+   internal visitor (29), never through the public one (37) that returns the object to the pool *)
+Definition is_pubvisit (s : sk) : bool := match s with KCall 37 => true | _ => false end.
+Definition is_visit (s : sk) : bool := match s with KCall 29 => true | _ => false end.
+Lemma tie_merge_pool :
+  match sk_mergeStoredAndRemap with KSeq (KCall 10 :: KDefer 11 :: _) => true | _ => false end = true /\
+  count_ev is_get sk_mergeStoredAndRemap = 1%nat /\ count_ev is_put sk_mergeStoredAndRemap = 1%nat /\
+  count_ev is_pubvisit sk_mergeStoredAndRemap = 0%nat /\ count_ev is_visit sk_mergeStoredAndRemap = 1%nat.
+Proof. tvm. Qed.
+Print Assumptions tie_merge_pool.
+
 (* C19: mergeAndWriteVectorIndexes - before the inputs' indexes are freed unconditionally, every
    error return frees them; then IndexFactory is checked and its index is closed by a defer *)
 Fixpoint split_at_call (f : N) (l : list sk) : option (list sk * list sk) :=
